@@ -2,22 +2,23 @@
 # seedall.sh: apply every seeded change to /repo in turn, run the check(s) expected to catch it, revert.
 # Result table: /verif/seeded/RESULTS.txt  (seed, check, applies?, exit code, first violation label)
 cd /verif
+R=${VERIF_REPO:-/repo}
 out=/verif/seeded/RESULTS.txt
-echo "# seed check applies exit first-violation (HEAD $(git -C /repo log --format=%h -1), $(date -u +%FT%TZ))" > $out
+[ -n "$APPEND" ] || echo "# seed check applies exit first-violation (HEAD $(git -C $R log --format=%h -1), $(date -u +%FT%TZ))" > $out
 for d in /verif/seeded/*/; do
   s=$(basename $d); id=${s%%-*}
   checks=$id
   case $s in C10-a) checks="C05";; C01-a) checks="C01 C07";; esac
   [ -n "$1" ] && [[ ! " $* " =~ " $s " ]] && continue
-  if ! git -C /repo apply --check $d/patch.diff 2>/dev/null; then echo "$s - no - patch-does-not-apply" >> $out; continue; fi
+  if ! git -C $R apply --check $d/patch.diff 2>/dev/null; then echo "$s - no - patch-does-not-apply" >> $out; continue; fi
   for c in $checks; do
     [ -f checks/$c.json ] || { echo "$s $c yes - no-check" >> $out; continue; }
-    git -C /repo apply $d/patch.diff
-    timeout 3000 ./bin/gosmt check $c --tier quick -j 14 > /tmp/seedall-$s-$c.log 2>&1; rc=$?
-    git -C /repo checkout -- .
+    git -C $R apply $d/patch.diff
+    VERIF_REPO=$R timeout 3000 ./bin/gosmt check $c --tier quick -j 14 > /tmp/seedall-$s-$c.log 2>&1; rc=$?
+    git -C $R checkout -- .
     v=$(grep -m1 "^counterexample" /tmp/seedall-$s-$c.log | sed 's/.*label=\(.*\) pos=.*\[\(.*\)\]/\1 [\2]/' | cut -c1-120)
     echo "$s $c yes $rc $v" >> $out
   done
 done
-git -C /repo status --short | head -3
+git -C $R status --short | head -3
 echo ALLDONE >> $out
